@@ -15,10 +15,10 @@ func propC01(c *Ctx) {
 	c.Explanation = "Four structural necessary conditions of 'each successful step advances the recorded position by exactly the contiguous blocks whose rows it wrote': (R1.1) the number/hash written to the cursor are Num()/Hash() of the LAST element of the very slice that was handed to insert, which is the slice load returned in this iteration; (R1.2) the range starts at recorded position + 1 and the hash compared against is the one read with that position; (R1.3) every first/last element access on a block slice in shovel/task.go is preceded by a proof that the slice is non-empty (guard or callee post-condition) – this is where batch_size < concurrency used to crash; (R1.4) rows and cursor share a transaction; (R1.5) load's partition arithmetic has the shape that covers the range: partition size is the ceiling quotient of batch size by concurrency, offsets are i*part from start. Equality of table and projection, contiguity of partitions as values, and retry behaviour are run-time and not decided."
 	m := newConvergeModel(c)
 	conv := m.conv
-	loads := callsToFn(conv, m.load)
-	inss := callsToFn(conv, m.insert)
-	upds := callsToFn(conv, m.update)
-	lats := callsToFn(conv, m.latest)
+	loads := m.calls(m.load)
+	inss := m.calls(m.insert)
+	upds := m.calls(m.update)
+	lats := m.calls(m.latest)
 
 	c.Rule("R1.1", "the cursor row is computed from the last element of the slice that was inserted, which is the slice loaded in this iteration", 4)
 	if len(loads) != 1 || len(inss) != 1 || len(upds) != 1 || len(lats) != 1 {
@@ -48,7 +48,7 @@ func propC01(c *Ctx) {
 		}
 		c.Check("R1.1", "Converge/update-"+strings.ToLower(spec.meth)+"-from-last-inserted", upd.Pos(), good, detail)
 	}
-	c.Check("R1.1", "Converge/update-after-insert", upd.Pos(), dominatesInstr(ins, upd) && dominatesInstr(ld, ins), "load → insert → update execute in this order on every path")
+	c.Check("R1.1", "Converge/update-after-insert", upd.Pos(), m.dom(ins, upd) && m.dom(ld, ins), "load → insert → update execute in this order on every path")
 
 	c.Rule("R1.2", "the loaded range starts at recorded position + 1 and is linked against the hash recorded with that position", 2)
 	localNum, localHash := extractOf(lat, 0), extractOf(lat, 1)
